@@ -132,6 +132,9 @@ class AttrConstantPattern(AttrPattern):
             ir.AttributeType.STRINGS,
         }:
             # Since the type of attr.value is Sequence, we need to convert to the same type for comparison.
+            if not isinstance(self._value, Sequence):
+                # A scalar pattern value never equals a list-valued attribute.
+                return False
             return tuple(attr.value) == tuple(self._value)
         return attr.value == self._value
 
